@@ -267,6 +267,12 @@ LEMMAS = {
 }
 
 
+LEMMAS["div_nonneg"] = _lem(
+    2,
+    lambda a, n: z3.Implies(z3.And(a >= 0, n >= 1), a / n >= 0),
+    lambda a, n: not (a >= 0 and n >= 1) or a // n >= 0,
+    [_G, _G],
+)
 LEMMAS["bor_bit"] = _lem(
     2,
     lambda v, b: z3.Implies(z3.And(v >= 0, b >= 0, b <= 1), bor(2 * v, b) == 2 * v + b),
@@ -367,12 +373,50 @@ class Obl(object):
         self.unit = unit
         self.model_vars = None
 
-    def to_smt2(self):
+    def to_smt2(self, linear_only=False):
+        """linear_only: drop every hypothesis that mentions nonlinear arithmetic (sound: fewer hypotheses)."""
         s = z3.Solver()
         for h in self.hyps:
+            if linear_only and is_nonlinear(h):
+                continue
             s.add(h)
         s.add(z3.Not(self.goal))
         return s.to_smt2()
+
+
+_NL_CACHE = {}
+
+
+def is_nonlinear(e):
+    """Does the term contain pow2/blen/bitof applications, products of two non-numerals or div/mod by a non-numeral?"""
+    key = e.get_id()
+    if key in _NL_CACHE:
+        return _NL_CACHE[key]
+    res = False
+    stack = [e]
+    seen = set()
+    while stack and not res:
+        t = stack.pop()
+        if t.get_id() in seen:
+            continue
+        seen.add(t.get_id())
+        if z3.is_quantifier(t):
+            stack.append(t.body())
+            continue
+        if not z3.is_app(t):
+            continue
+        k = t.decl().kind()
+        if k == z3.Z3_OP_UNINTERPRETED and t.decl().name() in ("pow2", "blen", "bitof", "band", "bor"):
+            res = True
+        elif k == z3.Z3_OP_MUL:
+            if sum(0 if z3.is_int_value(c) else 1 for c in t.children()) >= 2:
+                res = True
+        elif k in (z3.Z3_OP_IDIV, z3.Z3_OP_MOD, z3.Z3_OP_REM, z3.Z3_OP_DIV):
+            if not z3.is_int_value(t.children()[1]):
+                res = True
+        stack.extend(t.children())
+    _NL_CACHE[key] = res
+    return res
 
 
 # ---------------------------------------------------------------------------
@@ -455,6 +499,7 @@ class Ctx(object):
         self.current_exc = None
         self.str_domains = {}
         self.param_classes = {}
+        self.defs = {}
 
     def fresh(self, name, sort=I):
         self.n += 1
@@ -518,6 +563,27 @@ class Ctx(object):
         c = self.fresh("H_" + name, arr.sort())
         self.assume(st, c == arr)
         st.heap[name] = c
+        self.defs[c.get_id()] = arr
+
+    def sel(self, arr, ref):
+        """arr[ref], looking through the definitions of SSA-named stores when the answer is syntactically
+        determined (same reference, or two distinct freshly allocated references); otherwise a Select term."""
+        cur = arr
+        for _ in range(64):
+            d = self.defs.get(cur.get_id())
+            if d is None or not z3.is_app(d) or d.decl().kind() != z3.Z3_OP_STORE:
+                break
+            a0, r0, v0 = d.children()
+            if r0.eq(ref):
+                return v0
+            if self.is_alloc(r0) and self.is_alloc(ref):
+                cur = a0
+                continue
+            break
+        return cur[ref]
+
+    def is_alloc(self, r):
+        return any(r.eq(a) for a in self.alloc_refs)
 
 
 # ---------------------------------------------------------------------------
@@ -1187,7 +1253,7 @@ class Exec(object):
     def load_key(self, st, base, key, node, check=True):
         ctx = self.ctx
         if check:
-            has = ctx.field_array(st, "has_" + key, AIB)[base.z]
+            has = ctx.sel(ctx.field_array(st, "has_" + key, AIB), base.z)
             ctx.oblige(st, has, "key-present", node, "state[%r] is present when read" % key)
         return self.load_field(st, base, key, node)
 
@@ -1195,12 +1261,12 @@ class Exec(object):
         ctx = self.ctx
         t = self.field_type(key, node)
         if t == "bool":
-            return mk_bool(ctx.field_array(st, "val_" + key, AIB)[base.z])
-        v = ctx.field_array(st, "val_" + key, AII)[base.z]
+            return mk_bool(ctx.sel(ctx.field_array(st, "val_" + key, AIB), base.z))
+        v = ctx.sel(ctx.field_array(st, "val_" + key, AII), base.z)
         if t == "int":
             return mk_int(v)
         if t == "optint":
-            return mk_optint(ctx.field_array(st, "none_" + key, AIB)[base.z], v)
+            return mk_optint(ctx.sel(ctx.field_array(st, "none_" + key, AIB), base.z), v)
         if t == "str":
             return SV("str", v)
         if t.startswith("ref:"):
@@ -1349,6 +1415,11 @@ class BoundMethod(object):
 
 
 GHOST_NAMES = {
+    "lo_has",
+    "lo_row",
+    "lo_get",
+    "gheight",
+    "gwidth",
     "is_fresh",
     "store",
     "define",
